@@ -147,6 +147,29 @@ def run_objsim(ctx, flavour, prop, runs, first, known_sigs, extra=(), build=True
     return res
 
 
+# hugesim: (flavour, runs in quick, runs in thorough); a run index maps to kind = index % 6, so only half of them belong to a property
+HUGE = {
+    "C05": dict(kinds="ctr", flavours=[("plain", 6, 24), ("plain_clang", 0, 12)]),
+    "C07": dict(kinds="par", flavours=[("plain", 6, 24), ("plain_clang", 0, 12)]),
+}
+
+
+def run_hugesim(ctx, flavour, prop, kinds, runs):
+    d = build_flavour(ctx, flavour, targets=("hugesim",))
+    out = os.path.join(ctx.B, "out", "%s-huge-%s-%d.json" % (prop, flavour, os.getpid()))
+    os.makedirs(os.path.dirname(out), exist_ok=True)
+    cmd = [os.path.join(d, "hugesim"), "--prop", prop, "--kinds", kinds, "--tier", ctx.tier, "--seed", str(ctx.seed), "--runs", str(runs), "--first", "0",
+           "--workers", "8" if ctx.tier == "thorough" else "3", "--out", out, "--outdir", os.path.join(ctx.B, "out"), "--replaydir", ctx.replay_dir]
+    p = subprocess.run(cmd, capture_output=True, text=True)
+    if p.returncode not in (0, 1):
+        sys.stderr.write(p.stdout[-3000:] + p.stderr[-6000:])
+        print("HARNESS-ERROR property=%s engine=hugesim flavour=%s exit=%d" % (prop, flavour, p.returncode))
+        raise SystemExit(2)
+    res = json.load(open(out))
+    os.unlink(out)
+    return res
+
+
 def check_objsim(ctx):
     spec = OBJSIM[ctx.pid]
     known, fixed = load_known(ctx)
@@ -159,6 +182,12 @@ def check_objsim(ctx):
         first = shift * base if not spec.get("digests") else 0
         extra = ["--digests"] if spec.get("digests") else []
         results.append((flavour, run_objsim(ctx, flavour, ctx.pid, runs, first, known_sigs, extra)))
+    # single requests of more than 2^31 / 2^32 bytes (hugesim): CTR kinds under C05, parallel kinds under C07
+    if ctx.pid in HUGE:
+        for flavour, nq, nt in HUGE[ctx.pid]["flavours"]:
+            n = nq if ctx.tier == "quick" else nt
+            if n:
+                results.append((flavour + "+huge", run_hugesim(ctx, flavour, ctx.pid, HUGE[ctx.pid]["kinds"], n)))
     violations, findings = [], []
     for flavour, r in results:
         for v in r["violations"]:
@@ -184,9 +213,9 @@ def check_objsim(ctx):
                 (findings if hit else violations).append((v, hit[0] if hit else None))
     extra = {}
     if ctx.pid == "C16":
-        extra = {"exhaustive": True, "exhaustive_space": "init function (6) x CPU model selecting the back end (3) x failing allocation index (1,2) x prior handle content class (6) = 216 cells, each enumerated many times; the tail of calls after the failed init is sampled"}
+        extra = {"exhaustive": True, "exhaustive_space": "init function (6) x CPU model selecting the back end (3) x failing allocation index (1,2) x prior handle content class (7, incl. the byte image of another live object) = 252 cells, each enumerated many times; the tail of calls after the failed init is sampled"}
     if ctx.pid == "C13":
-        extra = {"exhaustive": ctx.tier == "thorough", "exhaustive_space": "CPU-model grid (max leaf 6 x feature set 5 x OSXSAVE 2 x XCR0 4 x other sub-leaves 2 x out-of-range policy 2 x leaf-1 ECX 2 = 1920 models) x 6 init functions; quick enumerates a seeded third, thorough all of it; junk register/stack contexts are sampled (3 per cell)"}
+        extra = {"exhaustive": ctx.tier == "thorough", "exhaustive_space": "CPU-model grid (max leaf 7 x feature set 5 x OSXSAVE 2 x XCR0 4 x other sub-leaves 2 x out-of-range policy 2 x leaf-1 ECX 2 = 2240 models; unrelated leaves (2, 4, 5, 6, 0xA, 0xB, 0xD) answer with the values of real parts) x 6 init functions; quick enumerates a seeded third, thorough all of it; junk register/stack contexts are sampled (3 per cell)"}
     if ctx.pid == "C10":
         extra = {"exhaustive_dimensions": "key lengths 0..3*bs+16 and six huge values are enumerated for each of the 15 key-setting entry points; key bytes, placement and prior object state are sampled"}
     if ctx.pid == "C07":
@@ -291,6 +320,9 @@ def replay(ctx, path):
     if engine == "objsim":
         d = build_flavour(ctx, fl)
         return subprocess.run([os.path.join(d, "objsim"), "--replay", path]).returncode
+    if engine == "hugesim":
+        d = build_flavour(ctx, fl, targets=("hugesim",))
+        return subprocess.run([os.path.join(d, "hugesim"), "--replay", path]).returncode
     import engines
     return engines.replay(ctx, engine, fl, path)
 
